@@ -61,6 +61,24 @@ class An:
         c = self.root_call(e)
         return c is not None and c[3] == block
 
+    ERR_PRESERVING = ('core::result::Result::map', 'core::result::Result::map_err', 'core::result::Result::inspect',
+                      'core::result::Result::inspect_err', 'core::result::Result::and_then')
+
+    def err_rooted_at(self, e, block):
+        """like rooted_at, but also through Result adaptors that hand an Err on (map, map_err, inspect*, and_then):
+        for error discipline `r.map_err(f)?` inspects r."""
+        for _ in range(8):
+            c = self.root_call(e)
+            if c is None:
+                return False
+            if c[3] == block:
+                return True
+            if strip_generics(c[1]) in self.ERR_PRESERVING and c[2]:
+                e = c[2][0]
+                continue
+            return False
+        return False
+
     def awaited(self, b):
         """the future returned by the call in block b flows into `into_future` + poll loop in this body."""
         for pb in self.calls('core::future::future::Future::poll'):
@@ -77,7 +95,7 @@ class An:
             if 'QuestionMark' not in t.get('mac', ''):
                 continue
             e = self.flow.expr(t['args'][0])
-            if self.rooted_at(e, b):
+            if self.err_rooted_at(e, b):
                 out.append(tb)
         return out
 
@@ -360,31 +378,67 @@ class Ctx:
 
 # ---------------------------------------------------------------------------------------------------
 # K4 helpers
+def inspection_sites(a, cb):
+    """Places where the Result produced by the call in block `cb` (or a Result nested in its Ok / Some payload) is
+    inspected so that its Err case ends in an error return: [(level, block, kind)].
+      * `?` sites (QuestionMark desugaring of Try::branch) whose operand is rooted at the call;
+      * explicit matches: a switch on the discriminant of a Result-typed value rooted at the call, all of whose Err
+        edges lead only to error returns (no success return, no way back to the call).
+    `level` identifies which (nested) Result is inspected: the scrutinee's type (payload projections are transparent in
+    expression trees, so the type is what tells `r?` from `r??`)."""
+    out = []
+    for t in a.try_sites(cb):
+        out.append((a.blocks[t]['t'].get('ga', '?').strip('[]'), t, '?'))
+    rets = set(a.cfg.returns)
+    errb = [b for (b, si, k, _) in a.ret_sites() if k == 'err']
+    for b, e, t in a.switches_on(lambda e: e[0] == 'discr' and e[2].startswith('core::result::Result<') and a.err_rooted_at(e[1], cb)):
+        listed = {str(v): tgt for v, tgt in t['ts']}
+        if '1' in listed:
+            err_t = [listed['1']]
+        elif t['o'] in a.cfg.succ[b]:
+            err_t = [t['o']]
+        else:
+            continue
+        r = a.cfg.reach(err_t, cut_blocks=errb)
+        if (r & rets) or cb in r or b in r:
+            continue        # the Err case can continue normally: not a propagating inspection
+        if not any(x in a.cfg.reach(err_t) for x in errb):
+            continue
+        out.append((e[2], b, 'match'))
+    return out
+
+
 def propagation(a, cb, need=1, start_blocks=None):
     """How the Result produced by the call in block `cb` of analysis `a` is consumed.
-    Returns (ok, detail).  ok iff the value reaches >= `need` `?` sites (QuestionMark desugaring) or is the
-    function's returned value, and no path from the call (or from `start_blocks`) reaches `return` or the call
-    again while skipping any of those `?` sites."""
-    ts = a.try_sites(cb)
+    Returns (ok, detail).  ok iff the value is inspected at >= `need` levels (see inspection_sites: `?` or an explicit
+    match whose Err arm returns an error) or is the function's returned value, and no path from the call (or from
+    `start_blocks`) reaches `return` or the call again while skipping the inspection of any level."""
+    sites = inspection_sites(a, cb)
     # returned directly (tail expression): `_0 = <rooted at call>`
-    direct = [(b, si) for (b, si, k, e) in a.ret_sites() if k == 'other' and a.rooted_at(e, cb)]
-    if direct and not ts:
+    direct = [(b, si) for (b, si, k, e) in a.ret_sites() if k == 'other' and a.err_rooted_at(e, cb)]
+    if direct and not sites:
         return True, 'result is the function\'s return value'
-    if len(ts) < need:
-        return False, 'result reaches %d `?` site(s), %d required' % (len(ts), need)
+    levels = {}
+    for (lv, b, kind) in sites:
+        levels.setdefault(lv, []).append(b)
+    if len(levels) < need:
+        return False, 'result reaches %d `?` site(s), %d required' % (len(levels), need)
     starts = start_blocks if start_blocks is not None else list(a.cfg.succ[cb])
     rets = set(a.cfg.returns)
     # an early return that carries an error (`?` failing arm, explicit Err) is not a swallowed failure
     errb = [b for (b, si, k, _) in a.ret_sites() if k == 'err']
-    for t in ts:
-        r = a.cfg.reach(starts, cut_edges=a.cfg.out_edges(t), cut_blocks=errb)
+    for lv, bs in sorted(levels.items()):
+        cut = set()
+        for t in bs:
+            cut |= set(a.cfg.out_edges(t))
+        r = a.cfg.reach(starts, cut_edges=cut, cut_blocks=errb)
         bad = (r & rets) | ({cb} & r)
         if bad:
             tgt = sorted(bad)[0]
-            p = a.cfg.path(starts[0], tgt, cut_edges=a.cfg.out_edges(t), cut_blocks=errb)
-            return False, 'a path from the call reaches %s without passing the `?` at line %d (blocks %s)' % (
-                'return' if tgt in rets else 'the next iteration', a.line(t), p)
-    return True, 'result passes %d `?` site(s) at line(s) %s on every path' % (len(ts), sorted({a.line(t) for t in ts}))
+            p = a.cfg.path(starts[0], tgt, cut_edges=cut, cut_blocks=errb)
+            return False, 'a path from the call reaches %s without passing the error check at line %s (blocks %s)' % (
+                'return' if tgt in rets else 'the next iteration', sorted({a.line(t) for t in bs}), p)
+    return True, 'result passes %d error check(s) (`?` or a match whose Err arm returns the error) at line(s) %s on every path' % (len(sites), sorted({a.line(b) for (_, b, _) in sites}))
 
 
 # ---------------------------------------------------------------------------------------------------
@@ -436,9 +490,14 @@ def cond_edges(a, b):
     return c[0], c[1], c[2], t_edges, f_edges
 
 
-def edges_where(a, pred_holds):
+def edges_where(a, pred_holds, flags=True):
     """all CFG edges on which a comparison satisfying `pred_holds(op, lhs, rhs) -> True/False/None` is known to hold.
-    pred_holds gets the canonical comparison that is TRUE on the edge (both orientations are tried by the caller)."""
+    pred_holds gets the canonical comparison that is TRUE on the edge (both orientations are tried by the caller).
+    With `flags`, a switch on a boolean variable that records such a test (`let fits = if a > A { false } else
+    { b <= B }; if fits { .. }`) contributes too: an edge on which the variable has value v counts when every
+    assignment that can give it the value v either is a comparison that then satisfies the predicate or sits in a block
+    that is itself only reachable across an edge where the predicate holds.  (Limits: the comparison is evaluated at
+    the assignment, not at the switch; function-level must-pass, not per loop iteration.)"""
     out = []
     for b in sorted(a.cfg.reach0):
         ce = cond_edges(a, b)
@@ -448,18 +507,64 @@ def edges_where(a, pred_holds):
         for (oper, edges) in ((op, te), (_NEG[op], fe)):
             if pred_holds(oper, l, r) or pred_holds(_SWAP[oper], r, l):
                 out.extend(edges)
+    if not flags:
+        return out
+    base = list(out)
+    for b in sorted(a.cfg.reach0):
+        t = a.blocks[b]['t']
+        if t['k'] != 'switch':
+            continue
+        e = a.flow.expr(t['d'])
+        neg = False
+        while e[0] == 'un' and e[1] == 'Not':
+            neg = not neg
+            e = e[2]
+        if e[0] != 'local' or a.flow.lty(e[1]) != 'bool':
+            continue
+        ds = a.flow.defs.get(e[1], [])
+        if len(ds) < 2 or not all(d[0] == 'assign' for d in ds) or e[1] in a.flow.partial:
+            continue
+        f_edges = [(b, tgt) for v, tgt in t['ts'] if str(v) == '0']
+        t_edges = [(b, s_) for s_ in a.cfg.succ[b] if (b, s_) not in f_edges]
+        for pol, edges in ((True, t_edges), (False, f_edges)):
+            pol_ = (not pol) if neg else pol
+            ok = True
+            for d in ds:
+                rv = a.flow.rvalue(d[3], 0)
+                if rv[0] == 'const' and isinstance(rv[1], (int, bool)):
+                    if bool(rv[1]) != pol_:
+                        continue            # this assignment cannot produce the value seen on the edge
+                    c = None
+                else:
+                    c = as_comparison(rv)
+                if c is not None:
+                    oper = c[0] if pol_ else _NEG[c[0]]
+                    if pred_holds(oper, c[1], c[2]) or pred_holds(_SWAP[oper], c[2], c[1]):
+                        continue
+                if not (base and a.cfg.must_pass(d[1], via_edges=base)):
+                    ok = False
+                    break
+            if ok:
+                out.extend(edges)
     return out
 
 
 def success_edges(a, cb):
     """CFG edges taken exactly when the Result produced by the call in block cb was Ok: the Continue edges of the `?`
-    sites rooted at it (Try::branch -> discriminant switch, value 0)."""
+    sites rooted at it (Try::branch -> discriminant switch, value 0), and the Ok edges of explicit matches on it
+    (`if let Err(e) = r { return .. }`, `match r { Ok(..) => .., Err(..) => .. }`)."""
     out = []
     for t in a.try_sites(cb):
         for sw in a.cfg.succ[t]:
             tt = a.blocks[sw]['t']
             if tt['k'] == 'switch':
                 out += [(sw, tgt) for v, tgt in tt['ts'] if str(v) == '0']
+    for b, e, t in a.switches_on(lambda e: e[0] == 'discr' and e[2].startswith('core::result::Result<') and a.err_rooted_at(e[1], cb)):
+        listed = {str(v): tgt for v, tgt in t['ts']}
+        if '0' in listed:
+            out.append((b, listed['0']))
+        elif '1' in listed and t['o'] in a.cfg.succ[b]:
+            out.append((b, t['o']))
     return out
 
 
